@@ -21,7 +21,12 @@ def tasks(tier, seed):
                        kinds={'assert', 'memory', 'uncaught_exception', 'terminate', 'deadlock'}))
     import session_common as SC
     ts += SC.session_tasks(tier, [], 'session', None, early=(0, 1, 3),
-                           kinds={'memory', 'uncaught_exception', 'terminate', 'deadlock', 'limit', 'leak'})
+                           kinds={'memory', 'uncaught_exception', 'terminate', 'deadlock', 'hang', 'limit', 'leak'})
+    # the same with the back-pressure thresholds scaled down to 2 queued objects / one container + 80 bytes, 7 objects:
+    # producers really wait on full queue and full stream, and close() arrives while they are parked there
+    ts += SC.session_tasks(tier, [], 'session', None, early=(0, 1, 3, 5), nobj=7, scaled=True,
+                           kinds={'memory', 'uncaught_exception', 'terminate', 'deadlock', 'hang', 'limit', 'leak'})
+    ts += SC.big_session_tasks(tier, 'session', None, kinds={'memory', 'uncaught_exception', 'terminate', 'deadlock', 'hang', 'limit', 'leak'})
     meta = dict(
         level='model_checking',
         explanation='Monitor reduction (DESIGN.md section 3): each stage takes its mutex for the whole method body (checked by '
